@@ -186,6 +186,10 @@ class C06(UdpCheck):
                         continue
                     if rec["t"] > case["cfg"]["t_heal"]:
                         continue
+                    if rec.get("on_connect") and rec["retry"] == 0:
+                        # sent from the connect callback: a datagram that overtakes the challenge response (jitter) is
+                        # discarded by the server's handshake gate - for an unretried send that is ordinary loss
+                        continue
                     if rec["who"] == cnode.name:
                         key = ("S", rec["sig"])
                     elif rec["who"] == "S" and rec["peer"] == cnode.name:
